@@ -88,7 +88,15 @@ def discharge(ob: Obligation, use_cvc5=True, cvc5_ms=20000) -> Obligation:
             ob.status, ob.reason = "unproved", f"z3: unknown ({reason})"
         else:
             ob.status, ob.reason = "undecided", f"z3: unknown ({reason})"
-    if ob.status != "proved" and use_cvc5 and ob.kind != "must_fail":
+    if isinstance(use_cvc5, dict):  # shared budget of slow second opinions per task
+        if ob.status != "proved" and ob.kind != "must_fail" and use_cvc5.get("cvc5", 0) > 0:
+            use_cvc5["cvc5"] -= 1
+            go = True
+        else:
+            go = False
+    else:
+        go = bool(use_cvc5)
+    if ob.status != "proved" and go and ob.kind != "must_fail":
         r2, out = cvc5_prove(s, cvc5_ms)
         if r2 == "unsat":
             ob.status, ob.backend, ob.reason = "proved", "cvc5", ""
